@@ -177,12 +177,27 @@ def run(steps, validate=False, via='results'):
 NUM = (int, float, decimal.Decimal)
 
 
+EXACT_DECIMALS = [False]
+
+
+class exact_decimals:
+    """with lab.exact_decimals(): Decimal('2.5') and Decimal('2.50') are different cells ("rows pass unchanged")."""
+    def __enter__(self):
+        self.old = EXACT_DECIMALS[0]
+        EXACT_DECIMALS[0] = True
+
+    def __exit__(self, *a):
+        EXACT_DECIMALS[0] = self.old
+
+
 def strict_eq(a, b):
     """Type-strict deep equality: 1 != True, 1 != 1.0, Decimal('1.0') != 1.0; dict key order ignored."""
     if type(a) is not type(b):
         return False
     if isinstance(a, decimal.Decimal) and a.is_nan():
         return b.is_nan()
+    if isinstance(a, decimal.Decimal) and EXACT_DECIMALS[0]:
+        return str(a) == str(b)
     if isinstance(a, dict):
         return a.keys() == b.keys() and all(strict_eq(a[k], b[k]) for k in a)
     if isinstance(a, (list, tuple)):
